@@ -21,6 +21,7 @@ CHECK = {
     # its closure runs between the steps of every history (same code path, scaled interval)
     "rewrites": [
         {"file": "internal/index/manager/manager.go", "pattern": r"tagUpdateEventInterval = time\.Second \* 1\b", "replacement": "tagUpdateEventInterval = time.Millisecond * 5"},
+        {"file": "internal/index/builder/builder.go", "pattern": r">= 100_000\b", "replacement": ">= 4"},
     ],
     "campaigns": [
         {"test": "TestVerifC11", "checks": {"quick": 1200, "thorough": 60000}, "death_is_violation": True,
